@@ -174,7 +174,9 @@ def gen_cases(tier, rng):
             cases.append(("total\txml\t%s\t%d\t1*%s" % (opts, size, _hx(doc)), "total-xml-edge"))
     for label in META_LABELS:
         for tmpl in ("<meta http-equiv=content-type content='text/html; charset=%s'>x", "<meta charset='%s'>x",
-                     "<meta http-equiv=Content-Type content=\"a;charset=%s ;b\"><p>", "<head><meta content='charset=%s;' http-equiv='content-type'>"):
+                     "<meta http-equiv=Content-Type content=\"a;charset=%s ;b\"><p>", "<head><meta content='charset=%s;' http-equiv='content-type'>",
+                     "<meta http-equiv=content-type content='\u0130stanbul; charset=%s'>", "<meta http-equiv=content-type content='\u0130charset%s'>",
+                     "<meta http-equiv=content-type content='\u212a\u1e9e charset-=%s'>"):
             for size in (0, 1):
                 cases.append(("total\thtml\t-\t%d\t1*%s" % (size, _hx(tmpl % label)), "total-meta"))
     # mixed: deep then misnested closers
